@@ -640,14 +640,18 @@ func (e *Exec) callByContract(ct *Contract, callee *ssa.Function, args []Val, si
 		env.calleeNows = &calleeNows
 	}
 	// 1b. recursion: the function's variant decreases and is bounded below
-	if callee != nil && callee == e.fn && e.depth == 0 && !e.silent {
+	topExec := e
+	if e.top != nil {
+		topExec = e.top
+	}
+	if callee != nil && callee == topExec.fn && !e.silent {
 		if len(ct.Decreases) == 0 {
 			o := e.vc.Oblige("term", "recursion", "recursive call without a decreases clause", e.P.posString(instrPos(in)), e.g, False, nil)
 			o.Status = "unknown"
 		}
 		for k, d := range ct.Decreases {
 			mNew, err1 := env.EvalTerm(d.E)
-			mOld, err2 := e.paramEnv(e.st, nil).EvalTerm(d.E)
+			mOld, err2 := topExec.paramEnv(e.st, nil).EvalTerm(d.E)
 			if err1 != nil || err2 != nil {
 				o := e.vc.Oblige("term", fmt.Sprintf("recursion[%d]", k), "cannot evaluate variant "+d.Text, e.P.posString(instrPos(in)), e.g, False, nil)
 				o.Status = "unknown"
